@@ -8,10 +8,12 @@ import Ledger.Proofs.CtrlExamples
 `step` = one write through `forgeLog`; `runHist` = a sequential history.
 `replay` = `Export` (logs in id order) followed by `Import` / `importLog` into an
 empty ledger.  The unconditional replay statement is FALSE on the unchanged code
-(four counterexamples below, one per way in which `importLog` differs from the live
+(three counterexamples below, one per way in which `importLog` differs from the live
 write path); `replay_reproduces` proves it for ALL histories and ALL log kinds under
 the decidable hypothesis `replaySafe` (`Ledger/Ctrl/Replay.lean`), which excludes
-exactly those four.
+exactly those three.  `accounts_volumes` is compared as values (`Db.norm`: `(0,0)`
+rows dropped on both sides — a zero row equals the empty fold, DESIGN §3.0); every
+other table is compared row for row.
 -/
 namespace Ledger.C08
 open Ledger.Ctrl Ledger.Core Ledger.Ctrl.Examples
@@ -53,25 +55,36 @@ theorem log_ids_increase (strict : Bool) (ops : List Op) :
     and idempotent operations included) whose committed logs are all `logSafe`
     (`replaySafe`, decidable: `Ledger/Ctrl/Replay.lean`), exporting the journal and
     importing it into an empty ledger — at ANY import clock `now'` — succeeds and
-    yields exactly the same tables: transactions (ids, dates, post-commit volumes,
-    reverted-at), accounts (metadata and the three dates), volumes, schemas, logs.
+    yields the same tables: transactions (ids, dates, post-commit volumes,
+    reverted-at), accounts (metadata and the three dates), schemas and logs are EQUAL;
+    `accounts_volumes` is equal up to `(0,0)` rows (`Db.norm` drops them on both sides).
     By induction over the history; per log kind, `importLog` on the tables the write
     started from is shown to produce the tables the write ended with
     (`Ledger/Proofs/CtrlReplay.lean`). -/
 theorem replay_reproduces (strict : Bool) (now' : Time) (ops : List Op) (hsafe : replaySafe strict {} ops = true) :
     (importLogs now' {} (exportLogs (runHist strict {} ops))).2 = none ∧
-    (importLogs now' {} (exportLogs (runHist strict {} ops))).1.db = (runHist strict {} ops).db :=
+    (importLogs now' {} (exportLogs (runHist strict {} ops))).1.db.norm = (runHist strict {} ops).db.norm :=
   replay_reproduces_safe strict now' ops hsafe
 
-/-- The same for one committed write, from ANY tables with a key-sorted
-    `accounts_volumes`: `importLog` of the log it produced, run on the tables it
-    started from, ends with the tables it ended with. -/
+/-- Table by table: everything but `accounts_volumes` is equal outright, and the
+    copy's volumes are the source's minus possibly some `(0,0)` rows (`VolRel`: every
+    row of the copy is a row of the source, and a row only the source has is `(0,0)`). -/
+theorem replay_reproduces_tables (strict : Bool) (now' : Time) (ops : List Op) (hsafe : replaySafe strict {} ops = true) :
+    let c := (importLogs now' {} (exportLogs (runHist strict {} ops))).1.db
+    let d := (runHist strict {} ops).db
+    c.txs = d.txs ∧ c.accounts = d.accounts ∧ c.logs = d.logs ∧ c.schemas = d.schemas ∧ VolRel d.volumes c.volumes :=
+  Ledger.Ctrl.replay_reproduces_tables strict now' ops hsafe
+
+/-- The same for one committed write, from ANY tables: `importLog` of the log it
+    produced, run on the tables it started from (volumes `vR` = the live ones up to
+    zero rows), ends with the tables it ended with (volumes again up to zero rows). -/
 theorem replay_reproduces_step (now now' : Time) (hn : String) (f : Faults) (strict : Bool) (kind : OpKind)
-    (ik ihash sv : String) (n : Nat) (st0 st : RunSt) (log : Log) (sqR : Seqs)
+    (ik ihash sv : String) (n : Nat) (st0 st : RunSt) (log : Log) (sqR : Seqs) (vR : PCV)
     (h : run now hn f (runLog strict kind ik ihash sv n) st0 = (.ok log, st))
-    (hw : Ledger.Base.Map.WF st0.db.volumes) (hsafe : logSafe st0.db st.db log = true) :
-    eval now' (importLog log) st0.db sqR = some ((), st.db, sqR) :=
-  (runLog_replay now now' hn f strict kind ik ihash sv n st0 st log sqR h hw hsafe).1
+    (hv : VolRel st0.db.volumes vR) (hsafe : logSafe st0.db log = true) :
+    ∃ vR', eval now' (importLog log) (st0.db.withVol vR) sqR = some ((), st.db.withVol vR', sqR) ∧
+      VolRel st.db.volumes vR' :=
+  runLog_replay now now' hn f strict kind ik ihash sv n st0 st log sqR vR h hv hsafe
 
 /-- Without `replaySafe` the statement is FALSE (1): an account first created by a
     metadata save under a schema gets the chart's default metadata live, not on replay. -/
@@ -91,20 +104,13 @@ theorem replay_reproduces_counterexample_restamp :
     (replay (runHist false {} histRestamp)).2 = none ∧
     (replay (runHist false {} histRestamp)).1.db ≠ (runHist false {} histRestamp).db := by decide +kernel
 
-/-- FALSE (4): a Numscript run that locks the balance of an account it then does not
-    use (`GetBalances`: `INSERT (0,0) … ON CONFLICT DO NOTHING`) leaves a zero
-    `accounts_volumes` row in the live ledger; the replay never creates it. -/
-theorem replay_reproduces_counterexample_locked_row :
-    (replay (runHist false {} histLocked)).2 = none ∧
-    (replay (runHist false {} histLocked)).1.db.volumes ≠ (runHist false {} histLocked).db.volumes := by decide +kernel
-
-/-- `replaySafe` rejects each of the four witnesses (it excludes nothing else: see
+/-- `replaySafe` rejects each of the three witnesses (it excludes nothing else: see
     `logSafe`), and accepts a history with every kind of write, failing operations,
-    an idempotency key and a revert. -/
+    an idempotency key and a revert, as well as the locked-zero-row history below. -/
 theorem replaySafe_exact_on_witnesses :
     replaySafe true {} histDefaults = false ∧ replaySafe true {} histDates = false ∧
-    replaySafe false {} histRestamp = false ∧ replaySafe false {} histLocked = false ∧
-    replaySafe true {} histSafe = true := by decide +kernel
+    replaySafe false {} histRestamp = false ∧
+    replaySafe true {} histSafe = true ∧ replaySafe false {} histLocked = true := by decide +kernel
 
 /-- What holds for the one divergent payload (account SET_METADATA): the replayed
     row equals the live row when the account exists with a first usage not after
@@ -125,8 +131,14 @@ theorem replay_reproduces_partial_new (w : Time) (accounts : Ledger.Base.Map Str
 example : (step false s1 (pay false)).2.isError = false ∧ (step false s1 (pay false)).1.db.logs.length = 2 := by decide
 example : (step false s1 overdraw).2.isError = true := by decide
 -- `replay_reproduces` instantiated (all seven payload kinds in the journal)
-example : (importLogs 0 {} (exportLogs (runHist true {} histSafe))).1.db = (runHist true {} histSafe).db :=
+example : (importLogs 0 {} (exportLogs (runHist true {} histSafe))).1.db.norm = (runHist true {} histSafe).db.norm :=
   (replay_reproduces true 0 histSafe (by decide +kernel)).2
+-- Remark (NOT a violation): a Numscript run that locks the balance of an account it
+-- then does not use (`GetBalances`: `INSERT (0,0) … ON CONFLICT DO NOTHING`) leaves a
+-- `(0,0)` `accounts_volumes` row in the live ledger which the replay never creates:
+-- the raw tables differ by that row, the values (`Db.norm`) do not.
+example : (replay (runHist false {} histLocked)).1.db.volumes ≠ (runHist false {} histLocked).db.volumes ∧
+    (replay (runHist false {} histLocked)).1.db.norm = (runHist false {} histLocked).db.norm := by decide +kernel
 example : (runHist true {} histSafe).db.logs.length = 8 := by decide +kernel
 -- a replay that does reproduce: no metadata-created account
 example : (replay (runHist false {} [{ kind := .createP {} [⟨"world", "bank", 100, "USD"⟩] false, now := 10 }, pay false])).1.db =
